@@ -25,7 +25,7 @@ import c01_gen  # noqa: E402
 THEOREMS = ["Wf.indexOf?_bound", "Wf.resolve_bounded", "Wf.resolveList_bounded", "Wf.resolvesAll_ok",
             "Wf.check_filter_ok", "Wf.check_proj_ok", "Wf.check_order_ok", "Wf.check_hashagg_ok", "Wf.check_join_ok",
             "Wf.check_hashjoin_residual", "Wf.check_apply", "Wf.schema_filter", "Wf.schema_order", "Wf.schema_limit",
-            "Wf.schema_topn", "Wf.schema_proj", "Wf.applyProjOrder_schema", "Wf.wPlan_ok", "Wf.applyProjOrderOld_unsound",
+            "Wf.schema_topn", "Wf.schema_proj", "Wf.schema_list", "Wf.applyProjOrder_schema", "Wf.wPlan_ok", "Wf.applyProjOrderOld_unsound",
             "Wf.applyProjOrder_regression"]
 # Thm/C17Proj.lean: projection pushdown keeps accepted plans accepted (repaired applier, fix 5c889c5)
 THEOREMS_PROJ = ["Wf.Tm.beq_eq", "Wf.kept_resolves", "Wf.resolve_kept", "Wf.resolveList_kept", "Wf.applyProjOrder_keeps_ok",
@@ -95,6 +95,12 @@ def run(ck):
     if arms != MODEL_ARMS:
         ck.report("translator:builder-arms-changed", "the executor builder's node kinds changed: added %s removed %s — the plan checker model no longer describes it" % (
             sorted(arms - MODEL_ARMS), sorted(MODEL_ARMS - arms)), replay={"source_arms": sorted(arms), "model_arms": sorted(MODEL_ARMS)}, found_input=False)
+    # `schema` of the plan checker is regenerated from rules/schema.rs analyze_schema
+    rc, out = vlib.sh([sys.executable, os.path.join(vlib.VERIF, "translator/gen_schema.py"), vlib.REPO])
+    ck.log(out.strip().split("\n")[-1][:160])
+    if rc != 0:
+        ck.report("translator:schema", "schema translator failed (rules/schema.rs analyze_schema is no longer of a shape the model is generated from): " + out[-300:],
+                  replay={"out": out[-1500:]}, found_input=False)
     # rules translator (stage composition is needed by the harness)
     rc, out = vlib.sh([sys.executable, os.path.join(vlib.VERIF, "translator/gen_rules.py"), vlib.REPO])
     if rc != 0:
